@@ -4,6 +4,7 @@
 #include <cstdint>
 #include "celma/format/int2string.hpp"
 #include "celma/format/grouped_int2string.hpp"
+#include "celma/format/string_to.hpp"
 
 namespace verif_driver {
 
